@@ -186,9 +186,11 @@ def parse_unit(path):
             elif d == "subst-re":
                 old, _, new = arg.partition(" => ")
                 cur_fn.setdefault("subst_re", []).append((old.strip(), new.strip()))
-            elif d == "loop-invariant":
+            elif d == "loop-invariant" or d.startswith("loop-invariant@"):
+                # `#loop-invariant@N <line>`: the N-th loop (1-based) with that head line, for functions that
+                # have several loops with the same head
                 buf = []
-                cur_fn["loops"].append((arg, buf))
+                cur_fn["loops"].append((arg, buf, int(d.split("@")[1]) if "@" in d else None))
             elif d == "endfn":
                 cur_fn = None
             elif d == "":
@@ -297,12 +299,15 @@ def assemble(unit, repo):
                     lost.append("hint before %r in %s" % (anchor, val["anchor"]))
                     continue
                 body_lines[hits[0]:hits[0]] = text
-            for anchor, text in val["loops"]:
+            pending = []
+            for anchor, text, nth in val["loops"]:
                 hits = [k for k, l in enumerate(body_lines) if l.strip() == anchor]
-                if len(hits) != 1:
+                if (nth is None and len(hits) != 1) or (nth is not None and len(hits) < nth):
                     lost.append("loop invariant at %r in %s" % (anchor, val["anchor"]))
                     continue
-                k = hits[0]
+                pending.append((hits[0] if nth is None else hits[nth - 1], text))
+            # insert bottom-up so earlier line numbers stay valid
+            for k, text in sorted(pending, key=lambda x: -x[0]):
                 l = body_lines[k]
                 if not l.rstrip().endswith("{"):
                     raise LostAnchor("loop head %r does not end with '{'" % anchor)
